@@ -42,6 +42,8 @@ def atom_lines(logic, rng, n):
     S = "Int" if logic in ("QF_LIA", "QF_IDL", "QF_UFLIA", "QF_UFIDL") else "Real"
     xs, us = [], []
     consts = {}
+    if logic == "QF_AX":
+        return array_atom_lines(rng, n)
     if arith:
         for nm in "xyz":
             i = new(); L.append("var %d %s %s" % (i, S, nm)); xs.append(i)
@@ -89,6 +91,50 @@ def atom_lines(logic, rng, n):
                 ids.append(mk("=", [uterm(), uterm()]))
             else:
                 ids.append(mk("uf:P", [uterm(1)]))
+    return L, ids
+
+def array_atom_lines(rng, n):
+    """atoms of the theory of arrays: index equalities, element equalities between reads (also reads over one or two
+    writes, so that read-over-weak-equivalence lemmas with one and with two conditions arise) and array equalities"""
+    L = ["sort I", "sort E", "arrsort A I E"]
+    nid = [0]
+    def new():
+        nid[0] += 1; return nid[0]
+    def var(s, nm):
+        i = new(); L.append("var %d %s %s" % (i, s, nm)); return i
+    def mk(op, args):
+        i = new(); L.append("mk %d %s %s" % (i, op, " ".join(map(str, args)))); return i
+    arrs = [var("A", "a"), var("A", "b")]
+    idx = [var("I", nm) for nm in ("i", "j", "k")]
+    els = [var("E", nm) for nm in ("e0", "e1")]
+    i_, j_, k_ = idx
+    a, b = arrs
+    w1 = mk("store", [a, j_, els[0]])
+    w2 = mk("store", [w1, k_, els[1]])
+    w3 = mk("store", [b, rng.choice(idx), rng.choice(els)])
+    warrs = [w1, w2, w3]
+    def arr():
+        return rng.choice(arrs + warrs)
+    def elem():
+        return rng.choice(els) if rng.random() < 0.3 else mk("select", [arr(), rng.choice(idx)])
+    ids = []
+    # a skeleton that makes lemmas likely: a read of the base array against a read through the writes, and the index equalities
+    if rng.random() < 0.8:
+        r = rng.choice(idx)
+        ids.append(mk("=", [mk("select", [a, r]), mk("select", [rng.choice([w1, w2, w2]), r])]))
+        ids.append(mk("=", [r, rng.choice([x for x in idx if x != r])]))
+        ids.append(mk("=", [i_, j_])); ids.append(mk("=", [i_, k_]))
+    tries = 0
+    while len(ids) < n + 2 and tries < 10 * n:
+        tries += 1
+        x = rng.random()
+        if x < 0.35:
+            p, q = rng.sample(idx, 2); t = mk("=", [p, q])
+        elif x < 0.8:
+            t = mk("=", [elem(), elem()])
+        else:
+            t = mk("=", [rng.choice(arrs), arr()])
+        ids.append(t)
     return L, ids
 
 _seqs_cache = None
